@@ -152,7 +152,7 @@ pub fn check(tape: &[u32]) -> CheckResult {
 pub fn run(run: &mut Run) {
     run.rule = "cases: well-formed sprites with 1-8 layers (image, group, tilemap; hidden layers and hidden groups), all 19 blend modes, layer and cel opacity 0..255, cels inside/straddling/off canvas and at i16 extremes, empty/linked/tilemap cels, all pixel formats, shuffled cel chunk order. Oracle: fold over model-visible layers bottom-to-top of a two-layer blend B obtained from the library itself via full-canvas probe sprites, with the harness's own placement, clipping, opacity product and link/tilemap resolution. non-trivial: >=2 contributing overlapping layers, or a clipped cel, or a non-Normal mode, or opacity product < 255, or a hidden layer that has a cel; distinct by file hash".into();
     run.assumptions = vec!["B for a full-canvas two-layer stack is taken from the library (C03/C17 check the arithmetic); mul_un8(x,255)=x".into(), "fully transparent pixels compare equal regardless of RGB".into()];
-    let (lanes, cases) = if run.thorough() { (16, 20000) } else { (16, 600) };
+    let (lanes, cases) = if run.thorough() { (16, 20000) } else { (16, 4000) };
     run_tapes(run, lanes, cases, 1200, &check);
 }
 
